@@ -10,6 +10,8 @@
   Hypotheses, and why they are there:
   * `TermInScope` (value-range, lessThan): literals of the datatypes the property quantifies over —
     pySHACL models only equality for python values of other classes (xsd:time, durations, …).
+  * `NotBothLang`: the ordering of two language-tagged strings is left unspecified by the property (SPARQL: type
+    error; rdflib and therefore pySHACL order them by tag, then lexical form — the model follows the code).
   * `RdflibLit` (sh:datatype): what rdflib guarantees about `Literal.value` / `ill_typed` (trusted base).
   * `n ≠ 0` (sh:minLength): blank nodes under `sh:minLength 0` are left unspecified by the property.
   * sh:closed is `…_partial`: known finding C01:closed-exempts-rdf:type-rdfs:Resource.
@@ -154,33 +156,33 @@ theorem maxCount_exact (s : Shape) (fv : FV) (n : Int) (r : Result) :
   Spec.maxCount_exact s fv n r
 
 /-- the comparison lemma: sign tests on `compare_literal` = SPARQL `<`, `<=` returning true -/
-theorem comparison_is_sparql (a b : Lit) (ha : InScope a) (hb : InScope b) :
+theorem comparison_is_sparql (a b : Lit) (ha : InScope a) (hb : InScope b) (hlang : ¬ BothLang a b) :
     (cmpFlag a b (fun c => c < 0) = true ↔ sparqlLt a b = some true) ∧
     (cmpFlag a b (fun c => c > 0) = true ↔ sparqlLt b a = some true) ∧
     (cmpFlag a b (fun c => c ≤ 0) = true ↔ sparqlLe a b = some true) ∧
     (cmpFlag a b (fun c => c ≥ 0) = true ↔ sparqlLe b a = some true) :=
-  Spec.cmpFlag_spec a b ha hb
+  Spec.cmpFlag_spec a b ha hb hlang
 
 theorem minExclusive_exact (s : Shape) (fv : FV) (bounds : List Term)
-    (hscope : (∀ b ∈ bounds, TermInScope b) ∧ ∀ f vs, (f, vs) ∈ fv → ∀ v ∈ vs, TermInScope v) (r : Result) :
+    (hscope : (∀ b ∈ bounds, TermInScope b) ∧ ∀ f vs, (f, vs) ∈ fv → ∀ v ∈ vs, TermInScope v ∧ ∀ b ∈ bounds, NotBothLang v b) (r : Result) :
     r ∈ evalRange s .minExclusive fv bounds (fun c => c > 0) ↔
       ∃ b ∈ bounds, ∃ f vs, (f, vs) ∈ fv ∧ ∃ v ∈ vs, ¬ CmpTrue sparqlLt b v ∧ r = mkResult s .minExclusive f (some v) :=
   Spec.minExclusive_exact s fv bounds hscope r
 
 theorem minInclusive_exact (s : Shape) (fv : FV) (bounds : List Term)
-    (hscope : (∀ b ∈ bounds, TermInScope b) ∧ ∀ f vs, (f, vs) ∈ fv → ∀ v ∈ vs, TermInScope v) (r : Result) :
+    (hscope : (∀ b ∈ bounds, TermInScope b) ∧ ∀ f vs, (f, vs) ∈ fv → ∀ v ∈ vs, TermInScope v ∧ ∀ b ∈ bounds, NotBothLang v b) (r : Result) :
     r ∈ evalRange s .minInclusive fv bounds (fun c => c ≥ 0) ↔
       ∃ b ∈ bounds, ∃ f vs, (f, vs) ∈ fv ∧ ∃ v ∈ vs, ¬ CmpTrue sparqlLe b v ∧ r = mkResult s .minInclusive f (some v) :=
   Spec.minInclusive_exact s fv bounds hscope r
 
 theorem maxExclusive_exact (s : Shape) (fv : FV) (bounds : List Term)
-    (hscope : (∀ b ∈ bounds, TermInScope b) ∧ ∀ f vs, (f, vs) ∈ fv → ∀ v ∈ vs, TermInScope v) (r : Result) :
+    (hscope : (∀ b ∈ bounds, TermInScope b) ∧ ∀ f vs, (f, vs) ∈ fv → ∀ v ∈ vs, TermInScope v ∧ ∀ b ∈ bounds, NotBothLang v b) (r : Result) :
     r ∈ evalRange s .maxExclusive fv bounds (fun c => c < 0) ↔
       ∃ b ∈ bounds, ∃ f vs, (f, vs) ∈ fv ∧ ∃ v ∈ vs, ¬ CmpTrue sparqlLt v b ∧ r = mkResult s .maxExclusive f (some v) :=
   Spec.maxExclusive_exact s fv bounds hscope r
 
 theorem maxInclusive_exact (s : Shape) (fv : FV) (bounds : List Term)
-    (hscope : (∀ b ∈ bounds, TermInScope b) ∧ ∀ f vs, (f, vs) ∈ fv → ∀ v ∈ vs, TermInScope v) (r : Result) :
+    (hscope : (∀ b ∈ bounds, TermInScope b) ∧ ∀ f vs, (f, vs) ∈ fv → ∀ v ∈ vs, TermInScope v ∧ ∀ b ∈ bounds, NotBothLang v b) (r : Result) :
     r ∈ evalRange s .maxInclusive fv bounds (fun c => c ≤ 0) ↔
       ∃ b ∈ bounds, ∃ f vs, (f, vs) ∈ fv ∧ ∃ v ∈ vs, ¬ CmpTrue sparqlLe v b ∧ r = mkResult s .maxInclusive f (some v) :=
   Spec.maxInclusive_exact s fv bounds hscope r
@@ -233,20 +235,20 @@ theorem disjoint_exact (s : Shape) (dg : Graph) (fv : FV) (props : List Term) (r
   Spec.disjoint_exact s dg fv props r
 
 theorem lessThan_exact (s : Shape) (dg : Graph) (fv : FV) (props : List Term)
-    (hscope : (∀ t ∈ dg, TermInScope t.o) ∧ ∀ f vs, (f, vs) ∈ fv → ∀ v ∈ vs, TermInScope v)
+    (hscope : (∀ t ∈ dg, TermInScope t.o) ∧ ∀ f vs, (f, vs) ∈ fv → ∀ v ∈ vs, TermInScope v ∧ ∀ t ∈ dg, NotBothLang v t.o)
     (rs : List Result) (h : evalLessThan s .lessThan dg fv props (fun r => r < 0) = .ok rs) (r : Result) :
     r ∈ rs ↔ ∃ p ∈ props, ∃ f vs, (f, vs) ∈ fv ∧ ∃ v ∈ vs, ∃ c, (⟨f, p, c⟩ : Triple) ∈ dg ∧
       ¬ CmpTrue sparqlLt v c ∧ r = mkResult s .lessThan f (some v) :=
   Spec.lessThan_exact s _ dg fv props _ (fun v c => CmpTrue sparqlLt v c)
-    (fun v c hv hc => (pairOk_spec v c hv hc).1) hscope rs h r
+    (fun v c hv hc hl => (pairOk_spec v c hv hc hl).1) hscope rs h r
 
 theorem lessThanOrEquals_exact (s : Shape) (dg : Graph) (fv : FV) (props : List Term)
-    (hscope : (∀ t ∈ dg, TermInScope t.o) ∧ ∀ f vs, (f, vs) ∈ fv → ∀ v ∈ vs, TermInScope v)
+    (hscope : (∀ t ∈ dg, TermInScope t.o) ∧ ∀ f vs, (f, vs) ∈ fv → ∀ v ∈ vs, TermInScope v ∧ ∀ t ∈ dg, NotBothLang v t.o)
     (rs : List Result) (h : evalLessThan s .lessThanOrEquals dg fv props (fun r => r ≤ 0) = .ok rs) (r : Result) :
     r ∈ rs ↔ ∃ p ∈ props, ∃ f vs, (f, vs) ∈ fv ∧ ∃ v ∈ vs, ∃ c, (⟨f, p, c⟩ : Triple) ∈ dg ∧
       ¬ CmpTrue sparqlLe v c ∧ r = mkResult s .lessThanOrEquals f (some v) :=
   Spec.lessThan_exact s _ dg fv props _ (fun v c => CmpTrue sparqlLe v c)
-    (fun v c hv hc => (pairOk_spec v c hv hc).2) hscope rs h r
+    (fun v c hv hc hl => (pairOk_spec v c hv hc hl).2) hscope rs h r
 
 theorem hasValue_exact (s : Shape) (fv : FV) (vals : List Term) (r : Result) :
     r ∈ evalHasValue s fv vals ↔
